@@ -10,6 +10,7 @@ radial bin from its pixel contributions (ω, t = cos θ or cos² θ, v)).
     in C15.lean).
 -/
 import PyAbel.Props.C15
+import PyAbel.Props.C14
 
 namespace PyAbel.C15
 open PyAbel PyAbel.Distr
@@ -168,5 +169,52 @@ theorem solve3_scale (l : K) (hl : l ≠ 0) (p0 p1 p2 p3 p4 b0 b1 b2 : K) :
 theorem weight_scaling_3 (l : K) (hl : l ≠ 0) (ps : List (Contrib K)) :
     solveBin 3 (ps.map (scaleContrib l)) = solveBin 3 ps := by
   simp only [solveBin, weightMoment_scale, dataMoment_scale, solve3_scale l hl]
+
+/-! ### homogeneity in the image -/
+
+theorem solve2_rhs_smul (p0 p1 p2 b0 b1 a : K) :
+    solve2 p0 p1 p2 (a * b0) (a * b1) = (a * (solve2 p0 p1 p2 b0 b1).1, a * (solve2 p0 p1 p2 b0 b1).2) := by
+  unfold solve2
+  simp only
+  split_ifs <;> refine Prod.ext ?_ ?_ <;> simp only <;> ring
+
+theorem solve3_rhs_smul (p0 p1 p2 p3 p4 b0 b1 b2 a : K) :
+    solve3 p0 p1 p2 p3 p4 (a * b0) (a * b1) (a * b2)
+      = (a * (solve3 p0 p1 p2 p3 p4 b0 b1 b2).1, a * (solve3 p0 p1 p2 p3 p4 b0 b1 b2).2.1,
+         a * (solve3 p0 p1 p2 p3 p4 b0 b1 b2).2.2) := by
+  unfold solve3
+  simp only
+  split_ifs
+  · rw [solve2_rhs_smul]; simp
+  · refine Prod.ext ?_ (Prod.ext ?_ ?_) <;> simp only <;> ring
+
+/-- every pixel value multiplied by `a` (geometry and weights unchanged) -/
+def scaleV (a : K) (p : Contrib K) : Contrib K := ⟨p.ω, p.t, a * p.v⟩
+
+omit [DecidableEq K] in
+theorem weightMoment_scaleV (a : K) (ps : List (Contrib K)) (k : ℕ) : weightMoment (ps.map (scaleV a)) k = weightMoment ps k := by
+  simp only [weightMoment, List.map_map]; rfl
+
+omit [DecidableEq K] in
+theorem dataMoment_scaleV (a : K) (ps : List (Contrib K)) (k : ℕ) : dataMoment (ps.map (scaleV a)) k = a * dataMoment ps k := by
+  simp only [dataMoment, C14.lsum_eq_sum, List.map_map]
+  induction ps with
+  | nil => simp
+  | cons p ps ih => simp only [List.map_cons, List.sum_cons, Function.comp, scaleV] at ih ⊢; rw [ih]; ring
+
+/-- **distributions are homogeneous in the image**: multiplying every pixel value by `a` multiplies every coefficient of every order
+    by `a` (so ratios such as β are unchanged), for 1, 2 and 3 angular terms, including the degenerate branches -/
+theorem solveBin_image_smul (N : ℕ) (a : K) (ps : List (Contrib K)) :
+    solveBin N (ps.map (scaleV a)) = (solveBin N ps).map (a * ·) := by
+  match N with
+  | 0 => simp [solveBin]
+  | 1 =>
+    simp only [solveBin, weightMoment_scaleV, dataMoment_scaleV, List.map_cons, List.map_nil]
+    split_ifs <;> simp <;> ring
+  | 2 =>
+    simp only [solveBin, weightMoment_scaleV, dataMoment_scaleV, solve2_rhs_smul, List.map_cons, List.map_nil]
+  | 3 =>
+    simp only [solveBin, weightMoment_scaleV, dataMoment_scaleV, solve3_rhs_smul, List.map_cons, List.map_nil]
+  | n + 4 => simp [solveBin]
 
 end PyAbel.C15
